@@ -3,7 +3,7 @@ import TaskModel.Sched.MonC03
 /-! Helper lemmas for C03 (`Props/C03.lean`): the remaining command list is a suffix of the
 task's command list; what `afterCmd` does with failures; the deferred part of an
 activation is never left; the relation between `failStopMon` and the model. -/
-namespace TaskModel.Sched
+namespace TaskModel.Sched.S2
 
 /-! ### `rest` is the suffix of `cmds` at `idx` -/
 
@@ -372,4 +372,4 @@ theorem FailR_local (P : Program) (F : Flags) (o : Obs) (s : TaskDef × Bool) (x
     exact (hlate (by rw [hp]; rfl)).1
   | _ => exact ⟨s, by simp [failStopMonP, failStopMon], hsame s.2 id⟩
 
-end TaskModel.Sched
+end TaskModel.Sched.S2
